@@ -43,7 +43,7 @@ theorem exLoop_diverges : ∀ F, evalB F exLoopR {} = .fuel := by
     validation and whose definitional evaluation runs out of every fuel; hence the compiled program does not end -/
 example : ∃ bc, compileProgram exLoopAst = .ok (exLoopR, bc) ∧ inFragment6 exLoopR = true ∧ (∀ F, Spec.evalB F exLoopR {} = .fuel) ∧
     ∀ n, (∃ s', runSteps bc.code n (VM.start {} bc) = .budget s') ∨
-         (∃ n0 s', ∀ k, runSteps bc.code (n0 + k) (VM.start {} bc) = .error .index s') := by
+         HitsLimit bc := by
   have hin : inFragment6 exLoopR = true := by decide
   cases hc : compileProgram exLoopAst with
   | error e =>
@@ -110,7 +110,7 @@ theorem exRec_diverges : ∀ F, evalB F exRecR {} = .fuel := by
 /-- non-vacuity (a recursion that never returns) -/
 example : ∃ bc, compileProgram exRecAst = .ok (exRecR, bc) ∧ inFragment6 exRecR = true ∧ (∀ F, Spec.evalB F exRecR {} = .fuel) ∧
     ∀ n, (∃ s', runSteps bc.code n (VM.start {} bc) = .budget s') ∨
-         (∃ n0 s', ∀ k, runSteps bc.code (n0 + k) (VM.start {} bc) = .error .index s') := by
+         HitsLimit bc := by
   have hin : inFragment6 exRecR = true := by decide
   cases hc : compileProgram exRecAst with
   | error e =>
